@@ -6,12 +6,14 @@ namespace Afkak.Props.C17.Open
 open Afkak.Group Afkak.Consts Afkak.Monitor.C17
 
 /-- Full strength: after EVERY event list a started, non-stopping member is busy.  The code violates
-    it (finding F12, non-Kafka half): see `C17_never_idle_counterexample`. -/
+    it (finding F12, non-Kafka half): see `C17_never_idle_counterexample`.  Proved for every history
+    without the finding's situation: `C17_never_idle_partial` (hypothesis `f12Occurs cfg evs = false`). -/
 def C17_never_idle : Prop := ∀ (cfg : Cfg) (evs : List Ev), neverIdle (toMSteps (run cfg evs)) = true
 
 /-- Full strength: EVERY non-Kafka error, including one escaping the join (coordinator look-up,
     metadata load, leader partition load), surfaces on the Deferred returned by `start()`.
-    The code swallows the escaping ones: see `C17_fatal_surfaces_counterexample`. -/
+    The code swallows the escaping ones: see `C17_fatal_surfaces_counterexample`.  Proved for every
+    history without the finding's situation: `C17_fatal_surfaces_partial` (`f12Occurs cfg evs = false`). -/
 def C17_fatal_surfaces : Prop :=
   ∀ (cfg : Cfg) (evs : List Ev), fatalSurfaces (toMSteps (run cfg evs)) = true ∧ escapeSurfaces (toMSteps (run cfg evs)) = true
 
@@ -27,8 +29,8 @@ def okEv : Ev → Bool
     for its consumers) reaches stable membership by a failure-free continuation of at most
     `6 + #consumers` events.  The code violates it (finding F12, non-Kafka half: the member is idle
     for ever): `C17_rejoins_bounded_counterexample`.  It stays open ONLY because of that finding:
-    `C17_rejoins_bounded_no_escape` proves exactly this conclusion for every history in which no
-    non-Kafka error escaped the join (a decidable predicate of the event list), and
+    `C17_rejoins_bounded_no_escape` proves exactly this conclusion for every history without the finding's
+    situation (`f12Occurs cfg evs = false`, a decidable predicate of the event list), and
     `C17_rejoins_bounded_partial` for every history that ends not idle — both INCLUDING a member in
     the middle of `on_join_prepare` (converse drain invariant `CInv`, proved). -/
 def C17_rejoins_bounded : Prop :=
